@@ -148,11 +148,14 @@ def step (d : Drv) (f0 : List String) : Drv × String :=
         let d1 := { d with s := normalize (d.s.apply (.announce i ⟨e.grp, e.id, m.index⟩ e.tRound)) }
         (d1, snapshot d1 ++ " role=remain")
       | some _, none =>
+        -- `announce i core`: the real onDKGCompleted → leaveNetwork computes the stop time from the group being LEFT
+        -- (Drand.Beacon.Transition.BP.onDKGCompleted: stopAt = bp.group.transitionTime − 1, in the past): StopAt refuses,
+        -- the handler keeps running
+        if rest.contains "core" then (d, snapshot d ++ " role=leave:core:returned") else
         let d1 := if (d.s.node i).up then { d with stopAt := (i, tickStep) :: d.stopAt } else d
         (d1, snapshot d1 ++ " role=leave")
       | none, some m =>
         if (d.s.node i).up ∨ (d.s.node i).disk.epoch == e.id then bad else
-        let _ := rest
         let d1 := { d with s := normalize ((d.s.apply (.join i ⟨e.grp, e.id, m.index⟩)).pull i) }
         (d1, snapshot d1 ++ " role=join")
       | none, none => bad
